@@ -11,6 +11,7 @@ THEOREMS = ["TornadoModel.C21." + n for n in [
     "json_no_close_tag",
     "utf8_roundtrip", "utf8_roundtrip_bytes", "utf8_rejects_other",
     "qs_bytes_preserved", "qs_bytes_preserved_default",
+    "unescape_no_amp", "quote_all_safe", "escape_single_pass",
 ]]
 TRUSTED = [
     "html.escape / html.unescape (CPython 3.12 html/__init__.py) as modelled in C21/Model.lean; the entity table "
